@@ -25,7 +25,8 @@ func init() {
 // that stops answering, is seen at the place subscribers see it.
 // c05MoveRun: "M=<setup>|mv:<id>:<old>:<new>" or "...|mr:<id>:<new>": the setup over the bus, then the REAL client.MoveNode /
 // client.MirrorNode (the way the UI and the API move and mirror nodes). Observation:
-//   <setup results>,<ok|err> ## <subjects rebroadcast for the move> ## <parent=tombstone,... of every edge of the node afterwards>
+//
+//	<setup results>,<ok|err> ## <subjects rebroadcast for the move> ## <parent=tombstone,... of every edge of the node afterwards>
 func c05MoveRun(c string) string {
 	if c06Srv == nil {
 		c06Init()
